@@ -145,6 +145,11 @@ class HeuristicTopoPass( UnrollSimPass ):
     for blk in top.get_all_update_blocks():
       hostobj = top.get_update_block_host_component( blk )
       branchiness[ blk ], _ = visitor.enter( hostobj.get_update_block_info( blk )[-1] )
+      # A block that calls a blocking method is scheduled through its
+      # greenlet wrapper (see WrapGreenletPass)
+      greenlet_mapping = getattr( top._dag, 'blk_greenlet_mapping', {} )
+      if blk in greenlet_mapping:
+        branchiness[ greenlet_mapping[ blk ] ] = branchiness[ blk ]
 
     # Perform topological sort for a serial schedule.
     # Note that here we use a priority queue to get the blocks with small
